@@ -181,6 +181,34 @@ def rule_B(run, prog):
     run.obligation(rid, "RedfieldRelaxationTensor.convert_2_tensor", bool(order), key="typestate",
                    message="conversion must store the tensor and only then clear as_operators (no state "
                            "with as_operators False and data unset)", loc=f.loc())
+    # a converted tensor must be in the same flag state as one created directly in tensor form: the methods of the
+    # hierarchy (TDRedfieldRelaxationTensor.transform reads _data_initialized) choose their branch by these flags
+    g0 = prog.func(RED + "._post_implementation")
+    br = [s_ for s_ in g0.node.body if isinstance(s_, ast.If) and norm(s_.test) == "self.as_operators"]
+    if len(br) != 1 or not br[0].orelse:
+        raise AnalysisError("_post_implementation: branch on self.as_operators with a tensor branch not found")
+
+    def flag_stores(stmts):
+        out = {}
+        for st_ in stmts:
+            for n_ in ast.walk(st_):
+                if isinstance(n_, ast.Assign) and isinstance(n_.value, ast.Constant) and isinstance(n_.value.value, bool):
+                    for t_ in n_.targets:
+                        if isinstance(t_, ast.Attribute) and isinstance(t_.value, ast.Name) and t_.value.id == "self":
+                            out[t_.attr] = n_.value.value
+        return out
+    direct = flag_stores(br[0].orelse)
+    conv = flag_stores(ifs[0].body) if ifs else {}
+    readers = sorted({"%s.%s" % (c_.name, fn_.name) for c_ in prog.all_classes() if prog.is_subclass(c_, "RedfieldRelaxationTensor")
+                      or c_.name == "RedfieldRelaxationTensor" for fn_ in c_.methods.values()
+                      for n_ in ast.walk(fn_.node) if isinstance(n_, ast.Attribute) and isinstance(n_.ctx, ast.Load)
+                      and n_.attr in direct and isinstance(n_.value, ast.Name) and n_.value.id == "self"})
+    missing = sorted(a for a, v in direct.items() if conv.get(a) != v)
+    run.obligation(rid, "RedfieldRelaxationTensor.convert_2_tensor", not missing and bool(direct), key="same-flag-state",
+                   message="a tensor created in tensor form carries %s; convert_2_tensor() does not set %s, so a converted "
+                           "tensor is in a different state and the methods that branch on these flags (%s) treat it as "
+                           "still being in operator form" % (direct, missing, readers[:4]), loc=f.loc(),
+                   sample={"flags_of_the_direct_form": direct, "flags_set_by_conversion": conv, "readers": readers})
     # _post_implementation stores either form
     g = prog.func(RED + "._post_implementation")
     st = [norm(s) for s in ast.walk(g.node) if isinstance(s, ast.stmt)]
